@@ -107,3 +107,101 @@ pub fn oligo_paths(seed: u64, groups: usize, dir: &str, maxn: usize) {
     }
     println!("{}", json!({"ev":"eof"}));
 }
+
+fn sorted_lines_digest(data: &[u8], m2s: bool) -> String {
+    let text = String::from_utf8_lossy(data).to_string();
+    let mut lines: Vec<String> = text
+        .split('\n')
+        .map(|l| {
+            if m2s {
+                // the items inside an m2s line are a multiset
+                match l.split_once('\t') {
+                    Some((k, rest)) => {
+                        let inner = rest.trim().trim_start_matches('[').trim_end_matches(']');
+                        let mut items: Vec<&str> = inner.split("), (").map(|x| x.trim_start_matches('(').trim_end_matches(')')).collect();
+                        items.sort();
+                        format!("{}\t{}", k, items.join("|"))
+                    }
+                    None => l.to_string(),
+                }
+            } else {
+                l.to_string()
+            }
+        })
+        .collect();
+    lines.sort();
+    fnv(lines.join("\n").as_bytes())
+}
+
+/// trace tinv <seed> <dir> <nrec>: thread-count invariance on LARGER inputs than the validated traces can hold (megabytes of
+/// output, thousands of records, many shared k-mers / minimisers): the result with 1 thread is compared with the results on
+/// 2..16 threads - bytes for ordered outputs, sorted line sets for unordered ones. The 1-thread run is sequential code whose
+/// behaviour the small validated traces and tables pin down; equality across thread counts is what the properties state.
+pub fn tinv(seed: u64, dir: &str, nrec: usize) {
+    use counter::CountComputer;
+    let mut rng = Rng::new(seed);
+    // records in groups of identical and near-identical sequences, some shorter than k / m
+    let mut seqs: Vec<Vec<u8>> = Vec::new();
+    while seqs.len() < nrec {
+        let len = match rng.below(10) {
+            0 => rng.below(6) as usize,
+            _ => rng.range(40, 400) as usize,
+        };
+        let s = gen_seq(&mut rng, len, false);
+        let s: Vec<u8> = s.iter().map(|&b| if b == b'>' || b == b'@' || b == b'+' { b'N' } else { b }).collect();
+        for _ in 0..(1 + rng.below(4)) {
+            seqs.push(s.clone());
+        }
+    }
+    let inp = format!("{}/tinv.fa", dir);
+    write_fasta(&inp, &seqs);
+    let out = format!("{}/tinv.out", dir);
+    let threads = [1usize, 2, 5, 16];
+    let emit = |what: &str, t: usize, a: &str, b: &str| {
+        println!("{}", json!({"ev":"eq","what":format!("{} threads 1 vs {}", what, t),"a":a,"b":b}));
+    };
+    // oligo, both writers
+    for (name, wp) in [("oligo-mmap", WPath::Mmap), ("oligo-batch", WPath::Batch)] {
+        let mut first = String::new();
+        for &t in &threads {
+            let _ = std::fs::remove_file(&out);
+            let r = std::panic::catch_unwind(|| run_oligo(&inp, &out, 3, true, wp, t, ",", true, Some(50_000)));
+            let d = if matches!(r, Ok(Ok(()))) { fnv(&std::fs::read(&out).unwrap_or_default()) } else { "failed".into() };
+            if t == 1 { first = d.clone(); } else { emit(name, t, &first, &d); }
+        }
+    }
+    // minimiser listings
+    for (name, m2s) in [("min-s2m", false), ("min-m2s", true)] {
+        let mut first = String::new();
+        for &t in &threads {
+            let _ = std::fs::remove_file(&out);
+            let r = std::panic::catch_unwind(|| {
+                if m2s { misc::minimisers::bin_sequences(12, 7, &inp, &out, t) } else { misc::minimisers::seq_to_min(12, 7, &inp, &out, t) }
+            });
+            let d = if r.is_ok() { sorted_lines_digest(&std::fs::read(&out).unwrap_or_default(), m2s) } else { "failed".into() };
+            if t == 1 { first = d.clone(); } else { emit(name, t, &first, &d); }
+        }
+    }
+    // counter: several chunks, deleting merge
+    {
+        let mut first = String::new();
+        for &t in &threads {
+            let od = format!("{}/tinv_ctr", dir);
+            let _ = std::fs::remove_dir_all(&od);
+            std::fs::create_dir_all(&od).unwrap();
+            let r = std::panic::catch_unwind(|| {
+                let mut c = CountComputer::new(inp.clone(), od.clone(), 11);
+                c.set_threads(t);
+                c.set_max_memory(crate::ctrrun::mem_for_limit(20_000));
+                c.count();
+                c.merge(true);
+            });
+            let d = if r.is_ok() {
+                let left = crate::ctrrun::list_temps(&od).len();
+                format!("{}+{}", sorted_lines_digest(&std::fs::read(format!("{}/kmers.counts", od)).unwrap_or_default(), false), left)
+            } else { "failed".into() };
+            if t == 1 { first = d.clone(); } else { emit("ctr", t, &first, &d); }
+        }
+    }
+    println!("{}", json!({"ev":"eof"}));
+}
